@@ -32,12 +32,16 @@ fn string_of_lens(lens: &[u64], var: u64) -> Result<(String, Option<bool>), Stri
                 need_g = true;
                 s.push_str("\r\n")
             }
+            // format characters (soft hyphen, byte order mark / zero width no-break space, word joiner): ordinary
+            // characters of the text, also as its very first character
+            (2, 3) => s.push('\u{ad}'),
             (2, _) => s.push('\u{e4}'),
             (3, 1) => s.push('\u{2028}'),
             (3, 2) => {
                 need_g = true;
                 s.push_str("a\u{301}")
             }
+            (3, 3) => s.push(if i % 2 == 0 { '\u{feff}' } else { '\u{2060}' }),
             (3, _) => s.push('\u{4e2d}'),
             (4, 1) => {
                 need_g = true;
@@ -470,6 +474,15 @@ pub fn run_c16(ctx: &mut Ctx) {
             emit(ctx, kind, 2, 1, &[1, 2]);
             emit(ctx, kind, 3, 1, &[4, 4, 4]);
             emit(ctx, kind, 4, 0, &[1, 2, 3, 4, 7, 1]);
+        }
+        // texts that start with a byte order mark / consist of one only (realisation selector 3 for the first cluster)
+        for kind in 0..3 {
+            for lens in [vec![3u64], vec![3, 1, 1, 2], vec![3, 3, 1], vec![2, 1, 1]] {
+                let mut v = vec![kind, 6, 1, 3];
+                enc_nats(&mut v, lens.iter().copied());
+                enc_observation(&mut v, kind, 6, 1, 3, &lens);
+                ctx.case("windows", &v);
+            }
         }
         // a wide grapheme cluster as the last character(s) behind a full window (right context counted in bytes)
         emit(ctx, 1, 16, 4, &[1, 1, 1, 1, 1, 1, 1, 1, 1, 1, 1, 1, 8]);
